@@ -481,6 +481,113 @@ func searchCounterexample(w *World, prop string, r vcResult) *Counterexample {
 
 var propFalsifiers = map[string]func(w *World, fn *ssa.Function, r vcResult) *Counterexample{
 	"C19": raceFalsifier,
+	"C06": panicFalsifier,
+}
+
+const panicTestTmpl = `package %s
+
+import (
+	"fmt"
+	"testing"
+)
+
+func verifEnum(alpha string, maxLen int) []string {
+	out := []string{""}
+	prev := []string{""}
+	for l := 1; l <= maxLen; l++ {
+		var cur []string
+		for _, p := range prev {
+			for i := 0; i < len(alpha); i++ {
+				cur = append(cur, p+string(alpha[i]))
+			}
+		}
+		out = append(out, cur...)
+		prev = cur
+	}
+	return out
+}
+
+func TestVerifReplay(t *testing.T) {
+	strs := %s
+	strs = append(strs, verifEnum("1.0a-~^*[(,) <>=|!v+_:x", 3)...)
+	strs = append(strs, "\x00", "\xff\xfe", "1.0\x00", "é", "１.０", "[", "]", "(,)", "[,]", "[1.0", "1.0]", ">=", "^", "~", "~>", "||", " || ", ",", "1.0 - ", " - 2.0", "!=", "==", "===", "vers:", "@stable", "dev-", "1.x", "x", "*", "=*")
+	e := &Ecosystem{}
+	try := func(what, in string, f func()) (ok bool) {
+		defer func() {
+			if r := recover(); r != nil {
+				fmt.Printf("VERIF-CX panic in %%s(%%q): %%v\n", what, in, r)
+				ok = false
+			}
+		}()
+		f()
+		return true
+	}
+	var vs []*Version
+	var rs []*VersionRange
+	n := 0
+	for _, s := range strs {
+		s := s
+		n++
+		if !try("NewVersion", s, func() {
+			v, err := e.NewVersion(s)
+			if (v == nil) == (err == nil) {
+				fmt.Printf("VERIF-CX NewVersion(%%q) returned value=%%v err=%%v (want exactly one)\n", s, v != nil, err)
+			}
+			if err == nil && len(vs) < 150 {
+				vs = append(vs, v)
+			}
+		}) {
+			return
+		}
+		if !try("NewVersionRange", s, func() {
+			r, err := e.NewVersionRange(s)
+			if (r == nil) == (err == nil) {
+				fmt.Printf("VERIF-CX NewVersionRange(%%q) returned value=%%v err=%%v (want exactly one)\n", s, r != nil, err)
+			}
+			if err == nil && len(rs) < 150 {
+				rs = append(rs, r)
+			}
+		}) {
+			return
+		}
+	}
+	for _, a := range vs {
+		for _, b := range vs {
+			n++
+			if !try("Compare", a.String()+" vs "+b.String(), func() { _ = a.Compare(b) }) {
+				return
+			}
+		}
+		for _, r := range rs {
+			n++
+			if !try("Contains", r.String()+" / "+a.String(), func() { _ = r.Contains(a) }) {
+				return
+			}
+		}
+	}
+	fmt.Printf("VERIF-OK evals=%%d versions=%%d ranges=%%d\n", n, len(vs), len(rs))
+}
+`
+
+// panicFalsifier drives the package's public API over a pool of awkward strings and reports the first panic
+// or value/error inconsistency.
+func panicFalsifier(w *World, fn *ssa.Function, r vcResult) *Counterexample {
+	pkg := fn.Pkg
+	if pkg == nil || pkg.Pkg.Scope().Lookup("Ecosystem") == nil || pkg.Pkg.Scope().Lookup("Version") == nil {
+		return nil
+	}
+	src := fmt.Sprintf(panicTestTmpl, pkg.Pkg.Name(), goStringSlice(apiPool(w, pkg, nil)))
+	out, _ := runOverlayTest(w, pkg, src, 120*time.Second)
+	cx := &Counterexample{How: "real NewVersion/NewVersionRange/Compare/Contains driven over test literals, short strings over the syntax alphabet and malformed inputs", Output: truncate(lastLines(out, 10), 2000)}
+	for _, ln := range strings.Split(out, "\n") {
+		if strings.HasPrefix(ln, "VERIF-CX ") {
+			cx.Confirmed = true
+			cx.Observed = strings.TrimPrefix(ln, "VERIF-CX ")
+			return cx
+		}
+	}
+	cx.Observed = "no panic observed"
+	return cx
 }
 
 const raceTestTmpl = `package %s
